@@ -438,6 +438,11 @@ TRUSTED_BASE = [
     "hand-written Model/*.v: faithful to the C only as far as the differential correspondence run shows",
     "the correspondence harness (harness/*.cpp), ocaml/driver.ml, lib/*.py generators and canonicalisation",
     "gcc/g++ 12, the C library and the kernel of the sandbox (not modelled)",
+    "(T) translators tools/*.py: symbolic execution with concrete control in Python (symx/llvmx/asm_* lowering tables; clang 14 -O1 LLVM IR "
+    "as the reading of the C kernels, gcc -E for the #if structure of .S files, clang's JSON AST for skeleton/hex/static-storage walks): control flow, "
+    "addresses and the pairing of programs with function names are decided there; the data flow of every emitted program, the specification side "
+    "(Obl/ByteOps.v, Obl/MWordSpec.v, Obl/CtObl.v, Obl/BoundsReq.v) and the required-coverage lists are checked in Coq",
+    "`coqchk -o` was run on Properties_C01, C05, C08 and C14 (Axioms: <none>; these pull in the Sym engine, the kernel obligations and the mode-level proofs); every theorem's Print Assumptions is re-read on every run",
 ]
 
 
